@@ -114,6 +114,13 @@ class Transaction:
                 raise FileNotFoundError(f"Data file does not exist: {data_file.file_path}")
             if table_schema is not None:
                 self._validate_file_schema(data_file, table_schema)
+            if data_file.file_path.lstrip("/") not in self._written_files:
+                # A pre-built file was written by the caller's own writer: nothing
+                # has flushed it or persisted its directory entry. The commit
+                # would otherwise advance the pointer to a file that a power loss
+                # can still take away (files written by append_data are fsynced
+                # by the writer).
+                self.file_manager.storage.make_durable(data_file.file_path.lstrip("/"))
 
         # A file registered WITHOUT a checksum is never verified: scans guard
         # verification with `if verify and data_file.checksum`, so with
